@@ -10,7 +10,10 @@ from wordseg.separator import Separator
 SEPS = [
     (' ', ';esyll', ';eword'), ('_', ';esyll', ';eword'), (' ', None, ';eword'), ('_', None, ';eword'),
     ('/', '=', '@@'), ('·', '‖', '§§'), (' ', '_', ';eword'), ('_', '=', ';e w'), ('_', None, '<w>'),
+    (';p', ';s', ';w'), (';p', None, ';w'),      # a multi-character phone separator
 ]
+# phones made of the LETTERS of the separators above (a separator is a string, not a set of characters)
+sl.PHONES['sepchars'] = ['p', 's', 'w', 'pʰ', 'ap', 'h', 'wa']
 
 
 def impl_prepare(text, sep, unit, cp=True, tolerant=False):
@@ -110,7 +113,7 @@ def main():
         cases.extend(tree_cases(rng, c['trees'], tuple(c['sep']), c.get('style', 'compact'), 'corpus', check_punct=False))
     n = 1500 if ck.thorough else 130
     for k in range(n):
-        fam = ['ascii', 'multi', 'ipa', 'sepfrag'][k % 4]
+        fam = ['ascii', 'multi', 'ipa', 'sepfrag', 'sepchars'][k % 5]
         sep = SEPS[k % len(SEPS)]
         trees = [sl.rand_tree(rng, sl.PHONES[fam]) for _ in range(rng.randint(1, 5))]
         if not all(sl.tree_ok(t, sep) for t in trees):
